@@ -362,20 +362,21 @@ def scan_batch(cases, root):
 # ------------------------------------------------------------------------------------------------------
 
 def run_translator(ctx):
-    """regenerate Gen/ReplaceOffsets.lean and Gen/LineAfterColumn.lean from scanner.rs; returns the replace-offsets flag"""
-    flag = None
+    """regenerate Gen/ReplaceOffsets.lean and Gen/LineAfterColumn.lean from scanner.rs; the extracted flags are recorded in
+    ctx.cov["extracted"]; returns the replace-offsets flag"""
+    import re
+    flags = ctx.cov.setdefault("extracted", {})
     for mod, gen_file in (("replace_offsets", "ReplaceOffsets"), ("line_after_column", "LineAfterColumn")):
         try:
             m = __import__("translate." + mod, fromlist=["run"])
             res = m.run()
             ctx.count(f"translator:{mod}:" + ("changed" if any(c for _, c in res) else "unchanged"))
-            val = "Bool := true" in open(os.path.join(common.LEAN, f"RModel/Gen/{gen_file}.lean")).read()
-            ctx.cov[f"extracted:{gen_file}"] = val
-            if mod == "replace_offsets":
-                flag = val
+            text = open(os.path.join(common.LEAN, f"RModel/Gen/{gen_file}.lean")).read()
+            for name, val in re.findall(r"def (\w+) : Bool := (true|false)", text):
+                flags[name] = val == "true"
         except Exception as ex:   # noqa: BLE001 — a translator that cannot parse its source is a broken tie
             ctx.broke("translator", f"translate/{mod}.py", repr(ex))
-    return flag
+    return flags.get("replaceOffsetsFileRelative")
 
 
 def matcher_oracle(content, variants, line):
